@@ -171,11 +171,13 @@ def main(tier, seed):
                 tooltier.rename_variants(prog, rng)
             if i % 6 == 1:
                 tooltier.underscore_fields(prog, rng)
+            twin = tooltier.same_name_namespaced(prog, rng) if i % 6 == 4 else 0
             ncfg = tooltier.add_cfgs(prog, rng) if i % 4 == 2 else 0
             emit_rust.assign_abi_names(prog)
             d = toolrun.fresh_dir(toolrun.workdir("c09", "p%d_%s" % (i, b)))
             src, cfg = tooltier.write_program(prog, d, "")
-            backs = ("c", "cpp") if b == "cpp" else ("js",)
+            # (C has no namespaces: two types of one identifier cannot both have a header there, see C15's F56 probe)
+            backs = (("cpp",) if twin else ("c", "cpp")) if b == "cpp" else ("js",)
             accepted = True
             for bb in backs:
                 rc, o, e = toolrun.run_tool(bb, src, os.path.join(d, bb), config_file=cfg, configs=(["js.abi=spec"] if (bb == "js" and i % 2) else []))
@@ -203,7 +205,8 @@ def main(tier, seed):
                     else:
                         os.remove(os.path.join(d, "lib.rlib"))
             if b == "cpp":
-                check_c(os.path.join(d, "c"), viol, st)
+                if not twin:
+                    check_c(os.path.join(d, "c"), viol, st)
                 check_cpp(os.path.join(d, "cpp"), viol, st, rng)
             else:
                 check_js(os.path.join(d, "js"), viol, st)
